@@ -3,6 +3,7 @@ import GeoVerif.Lemmas.Rot
 import GeoVerif.Lemmas.PySet
 import GeoVerif.Lemmas.ObjEq
 import GeoVerif.Lemmas.ObjRing
+import GeoVerif.Lemmas.ObjOrient
 
 /-!
 # C15 — shapes have value semantics (part 1: `__eq__` and `__hash__`)
@@ -303,6 +304,72 @@ theorem hole_rotation_eq (outline : List Coord) (hs1 hs2 : List Hole) (o : List 
   simp only [List.map_append, List.map_cons]
   refine List.rel_append (List.forall₂_same.mpr fun x _ => edgeSet_bequiv.refl x) ?_
   exact List.Forall₂.cons (hole_edges_rotate env o ho k d d') (List.forall₂_same.mpr fun x _ => edgeSet_bequiv.refl x)
+
+/-- replacing one hole by a hole with the same directed edge set gives an equal polygon -/
+theorem poly_eq_of_hole_edges (outline : List Coord) (hs1 hs2 : List Hole) (x y : Hole) (dt : Dt)
+    (h : edgeSetEq (x.edges env) (y.edges env) = true) :
+    Shape.eq env (.pl (.poly outline) (hs1 ++ x :: hs2) dt) (.pl (.poly outline) (hs1 ++ y :: hs2) dt) = true := by
+  rw [Shape.eq_poly]
+  simp only [dtEq_bequiv.refl, outlineEq_bequiv.refl, List.length_append, List.length_cons, decide_true,
+    Bool.true_and]
+  apply pySetEq_of_forall2 edgeSet_bequiv
+  simp only [List.map_append, List.map_cons]
+  refine List.rel_append (List.forall₂_same.mpr fun x _ => edgeSet_bequiv.refl x) ?_
+  exact List.Forall₂.cons h (List.forall₂_same.mpr fun x _ => edgeSet_bequiv.refl x)
+
+theorem hole_edges_isRotated {x y : List Coord} (hx : x ≠ []) (h : x ~r y) (d d' : Dt) :
+    edgeSetEq (Hole.edges env ⟨.poly (closeOpen x), d⟩) (Hole.edges env ⟨.poly (closeOpen y), d'⟩) = true := by
+  obtain ⟨k, rfl⟩ := h
+  exact edgeSet_bequiv.symm (hole_edges_rotate env x hx k d d')
+
+/-- **a hole ring written from any starting vertex and in either direction, through the public
+    constructor** (`GeoPolygon(ring)` normalises the orientation): the polygon is the same.
+    Hypotheses: the ring does not wrap around the antimeridian (all longitudes within 180° of each
+    other) and is not degenerate (non-zero signed area; for a zero-area ring both directions count as
+    counter-clockwise and are stored as written). -/
+theorem hole_rewrite_eq (outline : List Coord) (hs1 hs2 : List Hole) (o o' : List Coord) (ho : o ≠ [])
+    (k : Nat) (hrr : o' = o.rotate k ∨ o' = (o.rotate k).reverse) (hnw : NoWrap o)
+    (hnd : shoelaceOpen (o.map Coord.pt) ≠ 0) (d d' dt : Dt) :
+    Shape.eq env (.pl (.poly outline) (hs1 ++ ⟨.poly (mkOutlineC (closeOpen o')), d'⟩ :: hs2) dt)
+                 (.pl (.poly outline) (hs1 ++ ⟨.poly (mkOutlineC (closeOpen o)), d⟩ :: hs2) dt) = true := by
+  apply poly_eq_of_hole_edges
+  have hrot : o.rotate k ~r o := List.IsRotated.symm ⟨k, rfl⟩
+  have ho' : o' ≠ [] := by rcases hrr with rfl | rfl <;> simpa using ho
+  have hperm : o'.Perm o := by
+    rcases hrr with rfl | rfl
+    · exact List.rotate_perm _ _
+    · exact (List.reverse_perm _).trans (List.rotate_perm _ _)
+  have hnw' : NoWrap o' := noWrap_of_perm hperm hnw
+  have hS : shoelaceOpen (o'.map Coord.pt) = shoelaceOpen (o.map Coord.pt) ∧ o' ~r o ∨
+      shoelaceOpen (o'.map Coord.pt) = - shoelaceOpen (o.map Coord.pt) ∧ o' ~r o.reverse := by
+    rcases hrr with rfl | rfl
+    · left; exact ⟨by rw [List.map_rotate, shoelaceOpen_rotate], hrot⟩
+    · right
+      refine ⟨by rw [List.map_reverse, shoelaceOpen_reverse, List.map_rotate, shoelaceOpen_rotate], ?_⟩
+      exact hrot.reverse
+  rw [mkOutlineC_closeOpen o hnw, mkOutlineC_closeOpen o' hnw']
+  rcases hS with ⟨hs, hr⟩ | ⟨hs, hr⟩
+  · rw [hs]
+    split
+    · exact hole_edges_isRotated env ho' hr d' d
+    · rw [closeOpen_reverse, closeOpen_reverse]
+      apply hole_edges_isRotated env (revFrom_ne_nil ho')
+      exact ((revFrom_isRotated o').trans hr.reverse).trans (revFrom_isRotated o).symm
+  · rw [hs]
+    by_cases hle : shoelaceOpen (o.map Coord.pt) ≤ 0
+    · have hlt : shoelaceOpen (o.map Coord.pt) < 0 := lt_of_le_of_ne hle hnd
+      have hn : ¬ (- shoelaceOpen (o.map Coord.pt) ≤ 0) := by linarith
+      simp only [hle, hn, if_true, if_false]
+      rw [closeOpen_reverse]
+      apply hole_edges_isRotated env (revFrom_ne_nil ho')
+      have := hr.reverse
+      rw [List.reverse_reverse] at this
+      exact (revFrom_isRotated o').trans this
+    · have hn : - shoelaceOpen (o.map Coord.pt) ≤ 0 := by linarith [not_le.mp hle]
+      simp only [hle, hn, if_true, if_false]
+      rw [closeOpen_reverse]
+      apply hole_edges_isRotated env ho'
+      exact hr.trans (revFrom_isRotated o).symm
 
 /-- the order of the holes is irrelevant for a polygon -/
 theorem poly_holes_perm (outline : List Coord) {hs hs' : List Hole} (hp : hs.Perm hs') (dt : Dt) :
@@ -693,6 +760,11 @@ example : Shape.eq envZ (.pl (.poly (closeOpen [cA, cB, cC, cD])) [] none)
 example : Multi.eq envZ ⟨.mpoint, [.point cA none, .point cB none], none⟩
     ⟨.mpoint, [.point cB none, .point cA none, .point cA none], none⟩ = true := by decide
 example : Multi.eq envZ ⟨.mpoint, [.point cA none], none⟩ ⟨.mpoint, [.point cB none], none⟩ = false := by decide
+example : NoWrap [cA, cB, cC, cD] ∧ shoelaceOpen ([cA, cB, cC, cD].map Coord.pt) ≠ 0 := by
+  refine ⟨?_, by decide +kernel⟩
+  intro a ha b hb
+  simp only [List.mem_cons, List.not_mem_nil, or_false] at ha hb
+  rcases ha with rfl | rfl | rfl | rfl <;> rcases hb with rfl | rfl | rfl | rfl <;> decide +kernel
 /-- F15e/F15g: a one-vertex polygon equals itself and nothing else -/
 example : Shape.eq envZ (.pl (.poly [cA]) [] none) (.pl (.poly [cA]) [] none) = true ∧
     Shape.eq envZ (.pl (.poly [cA]) [] none) (.pl (.poly [cB]) [] none) = false := by decide
